@@ -123,7 +123,15 @@ template <typename PSET> static void run_two(Toks& tk, unsigned n) {
   T::assign_all_inequalities_approximation(pb, csb);
   T::assign_all_inequalities_approximation(pa, csa);
   Termination_Helpers::assign_all_inequalities_approximation(pb, pa, cs);
-  out_cons("apb", csb); out_cons("apa", csa); out_cons("ap", cs);
+  // the "before" system the PR_2 entry points use: pset_before intersected with the projection of pset_after
+  // onto the unprimed variables (the judge verifies relg against relb / rela by exact elimination)
+  PSET pg(pa);
+  if (n > 0) { Variables_Set vs; for (unsigned i = 0; i < n; ++i) vs.insert(Variable(i)); pg.remove_space_dimensions(vs); }
+  pg.intersection_assign(pb);
+  out_cons("relg", pg.constraints()); out_cons("mcg", pg.minimized_constraints());
+  Constraint_System csg;
+  T::assign_all_inequalities_approximation(pg, csg);
+  out_cons("apb0", csb); out_cons("apb", csg); out_cons("apa", csa); out_cons("ap", cs);
   GUARD("t_MS", { bool b = termination_test_MS_2(pb, pa); std::cout << "t_MS " << b << "\n"; });
   GUARD("t_PR", { bool b = termination_test_PR_2(pb, pa); std::cout << "t_PR " << b << "\n"; });
   { Generator g = point(); GUARD("o_MS", { bool b = one_affine_ranking_function_MS_2(pb, pa, g); out_gen("o_MS", b, g); }); }
@@ -131,7 +139,7 @@ template <typename PSET> static void run_two(Toks& tk, unsigned n) {
   { C_Polyhedron s; GUARD("a_MS", { all_affine_ranking_functions_MS_2(pb, pa, s); out_space("a_MS", s); }); }
   { NNC_Polyhedron s; GUARD("a_PR", { all_affine_ranking_functions_PR_2(pb, pa, s); out_space("a_PR", s); }); }
   { C_Polyhedron d, b; GUARD("q_MS", { all_affine_quasi_ranking_functions_MS_2(pb, pa, d, b); out_space("q_MS_d", d); out_space("q_MS_b", b); }); }
-  low_level(cs, csb, csa);
+  low_level(cs, csg, csa);
 }
 
 template <typename PSET> static void run_dom(const std::string& mode, Toks& tk, unsigned n) {
